@@ -370,6 +370,9 @@ func (w *World) makeVector(r *Run, status string) *Vector {
 	sort.Strings(v.Known)
 	memo := map[*Term]uint64{}
 	for _, ir := range r.inputs {
+		if ir.Internal {
+			continue
+		}
 		v.Values = append(v.Values, r.witness[ir.Name]&maskB(ir.W))
 		v.Labels = append(v.Labels, ir.Label)
 	}
@@ -432,6 +435,9 @@ func violationVector(h *Harness, v *Violation) *Vector {
 	}
 	sort.Strings(vec.Known)
 	for _, ir := range v.Inputs {
+		if ir.Internal {
+			continue
+		}
 		vec.Values = append(vec.Values, v.Model[ir.Name]&maskB(ir.W))
 		vec.Labels = append(vec.Labels, ir.Label)
 	}
